@@ -129,6 +129,15 @@ class Parser:
             raise TranslateError('expected %r, got %r (near token %d)' % (v, self.peek()[1], self.i))
 
     # types -------------------------------------------------------------------------------------
+    def close_angle(self):
+        """consume one `>` of a generic argument list (`>>` closes two levels: one is left in place)"""
+        if self.accept('>'):
+            return True
+        if self.peek()[1] == '>>':
+            self.t[self.i] = ('op', '>')
+            return True
+        return False
+
     def parse_type(self):
         if self.accept('('):
             ts = []
@@ -162,7 +171,8 @@ class Parser:
             return 'Self'
         if v == 'Option' and self.accept('<'):
             t = self.parse_type()
-            self.expect('>')
+            if not self.close_angle():
+                raise TranslateError('expected > after Option<T')
             return ('option', t)
         if v == 'Uint' and self.accept('<'):
             # `Uint<B, L>` of other const parameters: a limb list like `Self`
@@ -179,7 +189,7 @@ class Parser:
         if kind == 'id' and v not in ('Result', 'Option', 'Wrapping', 'Uint') and self.peek()[1] == '<':
             self.next()
             args = []
-            while not self.accept('>'):
+            while not self.close_angle():
                 args.append(self.parse_type())
                 self.accept(',')
             return ('generic', v, args)
@@ -187,7 +197,8 @@ class Parser:
             t = self.parse_type()
             self.expect(',')
             e = self.parse_type()
-            self.expect('>')
+            if not self.close_angle():
+                raise TranslateError('expected > after Result<T, E')
             return ('result', t, e)
         return v
 
@@ -627,6 +638,13 @@ class Parser:
             return self.parse_block()
         if v in ('true', 'false'):
             return ('bool', v == 'true')
+        if v in ('panic!', 'unreachable!', 'todo!'):
+            self.expect('(')
+            depth = 1
+            while depth:
+                x = self.next()[1]
+                depth += (x == '(') - (x == ')')
+            return ('panic',)
         if v == 'Self' and self.peek()[1] == '{' and self.peek(1)[1] == 'limbs' and self.peek(2)[1] == '}':
             # `Self { limbs }`: the Uint whose limb array is the variable `limbs`
             self.next(); self.next(); self.next()
@@ -798,7 +816,7 @@ class Emitter:
             return '(%s.drop %s)' % (s_, n_), 'slice'       # `&xs[k..]` panics for k > len; callers pass k ≤ len
         if k == 'index' and e[2][0] == 'range':
             s_, t_ = self.expr(e[1], env)
-            if t_ not in ('slice', 'mutslice'):
+            if t_ not in ('slice', 'mutslice') and not (isinstance(t_, tuple) and t_[0] == 'array'):
                 raise TranslateError('slicing of a non-slice')
             lo_, _ = self.expr(e[2][1], env, 'usize')
             hi_, _ = self.expr(e[2][2], env, 'usize')
@@ -814,7 +832,7 @@ class Emitter:
             return '(%s.getD %s 0)' % (s_, i_), 'u64'
         if k == 'index' and e[2][0] == 'rangeto':
             s, t = self.expr(e[1], env)
-            if t not in ('slice', 'mutslice'):
+            if t not in ('slice', 'mutslice') and not (isinstance(t, tuple) and t[0] == 'array'):
                 raise TranslateError('prefix slicing of a non-slice')
             n, _ = self.expr(e[2][1], env, 'usize')
             return '(%s.take %s)' % (s, n), 'slice'        # `&xs[..n]` panics for n > len; callers pass n ≤ len
@@ -871,7 +889,11 @@ class Emitter:
             return '[' + ', '.join(p[0] for p in parts) + ']', ('array', parts[0][1] if parts else 'u64', len(parts))
         raise TranslateError('unsupported expression %r' % (e[0],))
 
-    def match_expr(self, e, env, exp):
+    def match_ret(self, e, env, result):
+        """a `match` in return position with `panic!` arms: every other arm returns its value, a panic arm panics"""
+        return self.match_expr(e, env, self.inner_rt, ret=(result,))
+
+    def match_expr(self, e, env, exp, ret=None):
         """`match scrutinee { pat => expr, … }` over tuples of bools / integers / bindings: the scrutinee is bound to a
         temporary, each arm becomes `if <its literal tests> then <body with its bindings>`, in order; the last arm is the
         final `else` (Rust has checked that the arms are exhaustive)."""
@@ -913,7 +935,12 @@ class Emitter:
             for n, term, ty in binds:
                 env2[n] = ty
                 lets += 'let %s := %s\n  ' % (lean_ident(n), term)
-            sb, tb = self.expr(body, env2, exp or rt)
+            if ret is not None and body == ('panic',):
+                sb, tb = self.panic_value(ret[0], env2), None
+            else:
+                sb, tb = self.expr(body, env2, exp or rt)
+                if ret is not None:
+                    sb = self.wrap_ret(sb, env2)
             if tb is not None and not (isinstance(tb, tuple) and tb[0] == 'option' and tb[1] is None):
                 rt = tb
             arm = '(%s%s)' % (lets, sb)
@@ -1282,6 +1309,13 @@ class Emitter:
             env2[x] = 'u64'
             sb, _ = self.expr(args[0][2], env2, 'bool')
             return '(Rs.%s (fun %s => %s) %s)' % (name, lean_ident(x), sb, sr), ('option', 'usize')
+        if tr in ('uint', 'slice', 'mutslice') and name == 'any' and len(args) == 1 and args[0][0] == 'closure' \
+                and len(args[0][1]) == 1:
+            x = args[0][1][0]
+            env2 = dict(env)
+            env2[x] = 'u64'
+            sb, _ = self.expr(args[0][2], env2, 'bool')
+            return '(%s.any (fun %s => %s))' % (sr, lean_ident(x), sb), 'bool'
         if tr in ('uint', 'slice', 'mutslice') and name == 'first' and not args:
             return '(%s).head?' % sr, ('option', 'u64')
         if isinstance(tr, tuple) and tr[0] == 'option':
@@ -1432,7 +1466,8 @@ class Emitter:
         """`xs` or `xs[a..b]` / `xs[..b]` / `xs[a..]` with `xs` a `&mut [u64]` variable"""
         if t[0] == 'index' and t[2][0] in ('range', 'rangeto', 'rangefrom'):
             t = t[1]
-        return t[0] == 'path' and len(t[1]) == 1 and env.get(t[1][0]) in ('mutslice', 'slice')
+        return t[0] == 'path' and len(t[1]) == 1 and (env.get(t[1][0]) in ('mutslice', 'slice')
+                                                      or (isinstance(env.get(t[1][0]), tuple) and env[t[1][0]][0] == 'array'))
 
     def assign_lines(self, target, term, ty, env):
         """`let` lines realising `target = term`"""
@@ -1455,7 +1490,8 @@ class Emitter:
             return 'let %s := %s\n  ' % (lean_ident(target[1][1][0]), term)
         if target[0] == 'index' and target[2][0] in ('range', 'rangeto', 'rangefrom'):
             base = target[1]
-            if not (base[0] == 'path' and len(base[1]) == 1 and env.get(base[1][0]) in ('slice', 'mutslice')):
+            if not (base[0] == 'path' and len(base[1]) == 1 and (env.get(base[1][0]) in ('slice', 'mutslice') or (
+                    isinstance(env.get(base[1][0]), tuple) and env[base[1][0]][0] == 'array'))):
                 raise TranslateError('unsupported sub-slice assignment target')
             n = lean_ident(base[1][0])
             r = target[2]
@@ -1838,7 +1874,9 @@ class Emitter:
                     return [hoist(x, False) for x in e]
                 if not isinstance(e, tuple) or not e:
                     return e
-                if e[0] in ('closure', 'block', 'if', 'iflet', 'ifsome', 'match'):
+                if e[0] == 'match':
+                    return ('match', hoist(e[1], False), e[2])      # the scrutinee is evaluated first
+                if e[0] in ('closure', 'block', 'if', 'iflet', 'ifsome'):
                     return e
                 e = tuple(hoist(x, False) for x in e)
                 if not root and (self.panicking(e) or e[0] == 'try'):
@@ -1851,6 +1889,12 @@ class Emitter:
                 ne = hoist(s[pos], (k == 'let' and s[1][0] == 'pid') or self.mut_call(s) is not None)
                 if pre:
                     return self.stmts(pre + [s[:pos] + (ne,) + s[pos + 1:]] + rest, env, exp, result)
+        if k in ('tail', 'return') and s[1] is not None and s[1][0] == 'match' and any(b == ('panic',) for _, b in s[1][2]) \
+                and (result == 'fn' or k == 'return') and not (isinstance(result, tuple) and result[0] == 'loop'):
+            if not getattr(self, 'panics', False):
+                raise TranslateError('panic arm in a function not recorded as panicking')
+            sm, _ = self.match_ret(s[1], env, result)
+            return sm, self.cur_rt
         if k == 'assert':
             if not getattr(self, 'panics', False):
                 raise TranslateError('assert! in a function not recorded as panicking')
@@ -2332,6 +2376,13 @@ class Emitter:
                                 ('assign', pv, ('bin', '+', pv, ('lit', 1, 'usize')))] + stmts(st[3][1])
                         out.append(('while', ('bin', '<', pv, ('mcall', seq, 'len', [])), ('block', body)))
                         continue
+                if st[0] == 'let' and st[1][0] == 'ptuple' and len(st[1][1]) == 2 and all(q[0] == 'pid' for q in st[1][1]) \
+                        and isinstance(st[3], tuple) and st[3][0] == 'mcall' and st[3][2] == 'split_at' and len(st[3][3]) == 1:
+                    # `let (head, tail) = xs.split_at(n);` (shared borrow): the two halves
+                    xs_, n_ = ex(st[3][1]), ex(st[3][3][0])
+                    out.append(('let', st[1][1][0], None, ('index', xs_, ('rangeto', n_))))
+                    out.append(('let', st[1][1][1], None, ('index', xs_, ('rangefrom', n_))))
+                    continue
                 if st[0] == 'expr' and st[1][0] == 'call' and st[1][1][-1] == 'swap' and len(st[1][2]) == 2 \
                         and all(a[0] == 'refmut' and a[1][0] == 'path' for a in st[1][2]):
                     # `swap(&mut a, &mut b);`
@@ -2415,7 +2466,7 @@ class Emitter:
             if isinstance(node, tuple) and node:
                 if node[0] == 'mcall' and node[2] in ('expect', 'unwrap'):
                     return True
-                if node[0] == 'assert':
+                if node[0] in ('assert', 'panic'):
                     return True
                 if node[0] == 'call' and ('::'.join(node[1]) in getattr(self, 'panic_externs', ())
                                           or node[1][-1] in getattr(self, 'panic_externs', ())):
@@ -2881,6 +2932,22 @@ def gcd_value_items(repo):
             dict(w, file=repo + '/src/modular.rs', fn='inv_mod', lean='val_uint_inv_mod', key='UintV::inv_mod')]
 
 
+def fls_items(repo):
+    """the limb-slice constructors of src/lib.rs (`match` with `panic!` arms, `split_at`, `any`) and the `Uint` <- `Uint`
+    conversions of src/from.rs built on them"""
+    u = {'self_ty': 'uint', 'uint': True, 'group': 'fls', 'externs': UINT_EXTERNS, 'file': repo + '/src/lib.rs'}
+    out = []
+    for fn in ('overflowing_from_limbs_slice', 'from_limbs_slice', 'checked_from_limbs_slice', 'wrapping_from_limbs_slice',
+               'saturating_from_limbs_slice'):
+        out.append(dict(u, fn=fn, lean='uint_' + fn, key='Uint::' + fn))
+    f = repo + '/src/from.rs'
+    out.append(dict(u, file=f, fn='uint_try_from', lean='uint_try_from_uint', key='Uint::uint_try_from_uint',
+                    after='UintTryFrom<Uint<BITS_SRC, LIMBS_SRC>> for Uint<BITS, LIMBS>'))
+    out.append(dict(u, file=f, fn='from_uint', lean='uint_from_uint', key='Uint::from_uint'))
+    out.append(dict(u, file=f, fn='checked_from_uint', lean='uint_checked_from_uint', key='Uint::checked_from_uint'))
+    return out
+
+
 def radix_items(repo):
     """src/base_convert.rs: digit-sequence conversions (limb mode; errors are (variant index, fields))"""
     f = repo + '/src/base_convert.rs'
@@ -2905,6 +2972,7 @@ GROUPS = [('core', 'Words', ('Ruint.Gen.Prelude',)),
           ('uintmod', 'WordsUintMod', ('Ruint.Gen.WordsUintDiv', 'Ruint.Gen.WordsRedcLoops')),
           ('bytes', 'WordsBytes', ('Ruint.Gen.WordsUintMod', 'Ruint.Gen.PreludeBytes')),
           ('conv', 'WordsConv', ('Ruint.Gen.WordsUintMod',)),
+          ('fls', 'WordsFls', ('Ruint.Gen.WordsUintMod',)),
           ('value', 'WordsValue', ('Ruint.Gen.Prelude', 'Ruint.Model.Modular')),
           ('gcdv', 'WordsGcd', ('Ruint.Gen.Prelude', 'Ruint.Model.Gcd'))]
 
@@ -2925,6 +2993,7 @@ def translate_all(repo):
     items += uint_mod_items(repo)
     items += bytes_items(repo)
     items += conv_items(repo)
+    items += fls_items(repo)
     items += value_items(repo)
     items += gcd_value_items(repo)
     try:
